@@ -641,6 +641,11 @@ def run_function1(ub, fs, tier='quick', solver=None, extra_defs=(), vacuity=True
         raise Undecided('solver-error', '%s: unparsable cbmc output: %s\n%s' % (fs.name, e, (so + se)[-2000:]))
     if res is None:
         raise Undecided('solver-error', '%s: cbmc gave no result (rc=%d): %s' % (fs.name, rc, ' | '.join(msgs)[-2000:]))
+    bad = [r for r in res if r.get('status') not in ('SUCCESS', 'FAILURE')]
+    if bad or rc not in (0, 10):
+        # out of memory / solver error: statuses ERROR or UNKNOWN decide nothing
+        raise Undecided('solver-error', '%s: cbmc (%s) rc=%d, %d obligations without a verdict: %s' % (
+            fs.name, slv, rc, len(bad), ' | '.join(m for m in msgs if m)[-600:]))
     labels = dict(ub.labels.get(fs.name, []))
     for r in res:
         loc = r.get('sourceLocation', {})
@@ -692,6 +697,8 @@ def run_function1(ub, fs, tier='quick', solver=None, extra_defs=(), vacuity=True
             resv, _, _ = parse_cbmc_json(so)
         except Exception as e:
             raise Undecided('solver-error', '%s: unparsable vacuity output' % fs.name)
+        if rc not in (0, 10) or any(r.get('status') not in ('SUCCESS', 'FAILURE') for r in resv or []):
+            raise Undecided('solver-error', '%s: vacuity run gave no verdict (rc=%s): %s' % (fs.name, rc, (so + se)[-400:]))
         cov = []
         for r in resv or []:
             dsc = r.get('description', '')
